@@ -592,20 +592,6 @@ end Primaite.Database
 
 namespace Primaite.Database
 
-/-- Gen tie for the defaults a freshly installed instance gets (software.py / service.py, regenerated on every run): the
-re-installed database service's session limit and durations, and the FTP client's restart / fix durations. -/
-theorem C17_gen_fresh_instance_defaults :
-    ftpcRestartDur = Gen.Database.restartDurationDefault ∧ ftpcFixDur = Gen.Database.fixingDurationDefault ∧
-    ∀ (s : Server) (cfg : Option InstCfg), (s.reinstall cfg).2 = .done →
-      (s.reinstall cfg).1.maxSessions = Gen.Database.maxSessionsDefault ∧
-      (s.reinstall cfg).1.restartDur = Gen.Database.restartDurationDefault ∧
-      (s.reinstall cfg).1.fixDur = (cfg.getD { bk := false }).fixDur ∧
-      ({} : InstCfg).fixDur = Gen.Database.fixingDurationDefault := by
-  refine ⟨by decide, by decide, ?_⟩
-  intro s cfg h
-  unfold Server.reinstall at h ⊢
-  (repeat' split) <;> simp_all <;> decide
-
 end Primaite.Database
 
 namespace Primaite.Database
